@@ -330,3 +330,16 @@ Definition payload_wf (a : payload) : bool :=
                              && (negb (v =? 0) || len_is prog 20 || len_is prog 32) end.
 (* finding F14: version 1..16 followed by a push of 0 or 1 bytes that ends the script *)
 Definition known_F14 (s : bytes) : bool := is_v1plus_p2witprog s && (at_ s 1 <? 2).
+(* the scripts the property says have an address: p2pkh, p2sh, v0 with 20 or 32 bytes, v1..v16 with 2..40 bytes *)
+Definition address_template (s : bytes) : Prop :=
+  (exists h, length h = 20%nat /\ s = x76 :: xa9 :: x14 :: h ++ [x88; xac])
+  \/ (exists h, length h = 20%nat /\ s = xa9 :: x14 :: h ++ [x87])
+  \/ (exists h, length h = 20%nat /\ s = x00 :: x14 :: h)
+  \/ (exists h, length h = 32%nat /\ s = x00 :: x20 :: h)
+  \/ (exists v prog, 0x51 <= b2n v <= 0x60 /\ 2 <= lenN prog <= 40 /\ s = v :: n2b (lenN prog) :: prog).
+(* the builder operations that panic *)
+Definition op_panics (p : profile) (op : bop) : Prop :=
+  match op with
+  | BSlice d => 0x100000000 <= lenN d
+  | BInt n | BScriptInt n => p = Debug /\ n = i64_min
+  | _ => False end.
